@@ -125,6 +125,9 @@ var fillerSet = func() map[string]bool {
 	for _, f := range nonASCIIFillers {
 		m[f] = true
 	}
+	for _, f := range escapedLiterals {
+		m[f[1]] = true
+	}
 	return m
 }()
 
@@ -132,6 +135,9 @@ var fillerSet = func() map[string]bool {
 // the filler words the generator uses ("" if none).
 func strayWord(s string) string {
 	for _, w := range strings.Fields(s) {
+		if fillerSet[w] {
+			continue
+		}
 		w = strings.Trim(w, ".,;:!?()[]\"'*~-\u2014\u2022\u2020")
 		if w == "" || fillerSet[w] || fillerSet[w+"\u2020"] {
 			continue
